@@ -33,11 +33,12 @@ VARIABLES l,      \* index of the last consumed record
           nr, nl, \* per tag: received / release issued
           cl,     \* closed input channels
           dead,   \* channels the discipline must not read any more (removed / replaced, call returned)
+          added,  \* channels registered by an AddInput call that returned
           live,   \* channels currently registered as far as returned calls tell
           oc, ec, \* output / err closed
           stop, stopret, grace,  \* v1 control calls issued / returned
           viol    \* set of property ids violated so far
-vars == <<l, t0, wr, rc, seen, gap, nr, nl, cl, dead, live, oc, ec, stop, stopret, grace, viol>>
+vars == <<l, t0, wr, rc, seen, gap, nr, nl, cl, dead, added, live, oc, ec, stop, stopret, grace, viol>>
 
 Cfg == Events[t0]
 SetOf(s) == {s[i] : i \in 1..Len(s)}
@@ -53,12 +54,12 @@ SumOver(f, S) == LET RECURSIVE Acc(_) Acc(T) == IF T = {} THEN 0 ELSE LET x == C
 Init == /\ t0 \in Starts /\ l = t0
         /\ wr = [c \in ChansOf(t0) |-> 0] /\ rc = [c \in ChansOf(t0) |-> 0] /\ gap = [c \in ChansOf(t0) |-> FALSE] /\ seen = {}
         /\ nr = [p \in PriosOf(t0) |-> 0] /\ nl = [p \in PriosOf(t0) |-> 0]
-        /\ cl = {} /\ dead = {} /\ live = SetOf(Events[t0].live) /\ oc = FALSE /\ ec = FALSE
+        /\ cl = {} /\ dead = {} /\ added = {} /\ live = SetOf(Events[t0].live) /\ oc = FALSE /\ ec = FALSE
         /\ stop = FALSE /\ stopret = FALSE /\ grace = FALSE /\ viol = {}
 
 InFlight == SumOver(nr, Prios) - SumOver(nl, Prios)
 HeldOf(e, p) == PairVal(e.held, p)
-Keep == UNCHANGED <<wr, rc, seen, gap, nr, nl, cl, dead, live, oc, ec, stop, stopret, grace>>
+Keep == UNCHANGED <<wr, rc, seen, gap, nr, nl, cl, dead, added, live, oc, ec, stop, stopret, grace>>
 \* everything written to the channels that are registered (as far as returned calls tell) has been delivered
 AllDelivered == \A c \in live : rc[c] = wr[c] /\ ~gap[c]
 AllClosed == live \subseteq cl
@@ -70,8 +71,8 @@ Step ==
   /\ LET e == Events[l + 1] IN
      CASE e.e = "W" -> /\ wr' = [wr EXCEPT ![e.c] = e.k]
                        /\ viol' = viol \cup (IF e.k # wr[e.c] + 1 THEN {"harness"} ELSE {})
-                       /\ UNCHANGED <<rc, seen, gap, nr, nl, cl, dead, live, oc, ec, stop, stopret, grace>>
-       [] e.e = "C" -> cl' = cl \cup {e.c} /\ UNCHANGED <<wr, rc, seen, gap, nr, nl, dead, live, oc, ec, stop, stopret, grace, viol>>
+                       /\ UNCHANGED <<rc, seen, gap, nr, nl, cl, dead, added, live, oc, ec, stop, stopret, grace>>
+       [] e.e = "C" -> cl' = cl \cup {e.c} /\ UNCHANGED <<wr, rc, seen, gap, nr, nl, dead, added, live, oc, ec, stop, stopret, grace, viol>>
        [] e.e = "R" -> /\ nr' = IF e.p \in Prios THEN [nr EXCEPT ![e.p] = @ + 1] ELSE nr
                        /\ rc' = IF e.c \notin Chans THEN rc
                                 ELSE IF Cfg.unordered THEN [rc EXCEPT ![e.c] = @ + 1] ELSE [rc EXCEPT ![e.c] = e.k]
@@ -88,8 +89,8 @@ Step ==
                             \cup (IF InFlight + 1 > Cfg.H THEN {"C01"} ELSE {})
                             \cup (IF Cfg.sat /\ e.p \in Prios /\ nr[e.p] + 1 - nl[e.p] > ShareOf(e.p) THEN {"C05"} ELSE {})
                             \cup (IF oc THEN {"C07"} ELSE {})
-                       /\ UNCHANGED <<wr, nl, cl, dead, live, oc, ec, stop, stopret, grace>>
-       [] e.e = "L" -> nl' = [nl EXCEPT ![e.p] = @ + 1] /\ UNCHANGED <<wr, rc, seen, gap, nr, cl, dead, live, oc, ec, stop, stopret, grace, viol>>
+                       /\ UNCHANGED <<wr, nl, cl, dead, added, live, oc, ec, stop, stopret, grace>>
+       [] e.e = "L" -> nl' = [nl EXCEPT ![e.p] = @ + 1] /\ UNCHANGED <<wr, rc, seen, gap, nr, cl, dead, added, live, oc, ec, stop, stopret, grace, viol>>
        [] e.e = "Q" -> /\ viol' = viol
                             \cup (IF SumOver([p \in Prios |-> HeldOf(e, p)], Prios) > Cfg.H THEN {"C01"} ELSE {})
                             \cup (IF Cfg.sat /\ \E p \in Prios : HeldOf(e, p) # ShareOf(p) THEN {"C05"} ELSE {})
@@ -99,10 +100,10 @@ Step ==
                              \cup (IF InFlight # 0 THEN {IF Cfg.fault THEN "C15" ELSE "C07"} ELSE {})
                              \cup (IF ~Cfg.fault /\ (~AllClosed \/ ~AllDelivered) THEN {"C07"} ELSE {})
                              \cup (IF ~Cfg.fault /\ ~AllDelivered THEN {"C02"} ELSE {})
-                        /\ UNCHANGED <<wr, rc, seen, gap, nr, nl, cl, dead, live, ec, stop, stopret, grace>>
+                        /\ UNCHANGED <<wr, rc, seen, gap, nr, nl, cl, dead, added, live, ec, stop, stopret, grace>>
        [] e.e = "EC" -> /\ ec' = TRUE
                         /\ viol' = viol \cup (IF ~Cfg.v1 /\ ~oc THEN {"C07"} ELSE {})
-                        /\ UNCHANGED <<wr, rc, seen, gap, nr, nl, cl, dead, live, oc, stop, stopret, grace>>
+                        /\ UNCHANGED <<wr, rc, seen, gap, nr, nl, cl, dead, added, live, oc, stop, stopret, grace>>
        [] e.e = "EV" -> /\ viol' = viol \cup (IF e.note # "nil" /\ ~Cfg.fault THEN {"C07"} ELSE {})
                                         \cup (IF Cfg.fault /\ e.note \notin {"nil", "divider produces an incorrect distribution"} THEN {"C15"} ELSE {})
                         /\ Keep
@@ -114,24 +115,26 @@ Step ==
        [] e.e = "NoErr" -> viol' = viol \cup {"C15"} /\ Keep
        [] e.e = "SentAfterBad" -> viol' = viol \cup {"C15"} /\ Keep
        \* ---- v1 control plane
-       [] e.e \in {"Stop", "Cancel"} -> stop' = TRUE /\ UNCHANGED <<wr, rc, seen, gap, nr, nl, cl, dead, live, oc, ec, stopret, grace, viol>>
-       [] e.e = "StopRet" -> stopret' = TRUE /\ UNCHANGED <<wr, rc, seen, gap, nr, nl, cl, dead, live, oc, ec, stop, grace, viol>>
-       [] e.e = "Grace" -> grace' = TRUE /\ UNCHANGED <<wr, rc, seen, gap, nr, nl, cl, dead, live, oc, ec, stop, stopret, viol>>
+       [] e.e \in {"Stop", "Cancel"} -> stop' = TRUE /\ UNCHANGED <<wr, rc, seen, gap, nr, nl, cl, dead, added, live, oc, ec, stopret, grace, viol>>
+       [] e.e = "StopRet" -> stopret' = TRUE /\ UNCHANGED <<wr, rc, seen, gap, nr, nl, cl, dead, added, live, oc, ec, stop, grace, viol>>
+       [] e.e = "Grace" -> grace' = TRUE /\ UNCHANGED <<wr, rc, seen, gap, nr, nl, cl, dead, added, live, oc, ec, stop, stopret, viol>>
        [] e.e = "GraceRet" -> \* GracefulStop returns only when everything registered is closed, emptied, delivered and released
                         /\ viol' = viol \cup (IF ~stop /\ ~Cfg.fault /\ (~AllClosed \/ ~AllDelivered \/ InFlight # 0) THEN {"C07"} ELSE {})
                                         \cup (IF ~stop /\ ~Cfg.fault /\ ~AllDelivered THEN {"C02"} ELSE {})
+                                        \* elements of a channel handed over by an AddInput that returned must be delivered as well
+                                        \cup (IF ~stop /\ ~Cfg.fault /\ (\E c \in live \cap added : rc[c] # wr[c] \/ gap[c]) THEN {"C17"} ELSE {})
                         /\ Keep
        [] e.e \in {"StopHang", "CancelHang"} -> viol' = viol \cup {"C16"} /\ Keep
        [] e.e = "GraceHang" -> viol' = viol \cup {"C07"} /\ Keep
        [] e.e = "OutGrew" -> viol' = viol \cup {"C16"} /\ Keep
        [] e.e = "HandleAfterStop" -> viol' = viol \cup {"C16"} /\ Keep
-       [] e.e = "AddRet" -> live' = live \cup {e.c} /\ UNCHANGED <<wr, rc, seen, gap, nr, nl, cl, dead, oc, ec, stop, stopret, grace, viol>>
+       [] e.e = "AddRet" -> live' = live \cup {e.c} /\ added' = added \cup {e.c} /\ UNCHANGED <<wr, rc, seen, gap, nr, nl, cl, dead, oc, ec, stop, stopret, grace, viol>>
        [] e.e = "RmvRet" -> /\ live' = live \ {e.c} /\ dead' = dead \cup {e.c}
-                            /\ UNCHANGED <<wr, rc, seen, gap, nr, nl, cl, oc, ec, stop, stopret, grace, viol>>
+                            /\ UNCHANGED <<wr, rc, seen, gap, nr, nl, cl, added, oc, ec, stop, stopret, grace, viol>>
        [] e.e = "Dead" -> /\ live' = live \ {e.c} /\ dead' = dead \cup {e.c}
-                          /\ UNCHANGED <<wr, rc, seen, gap, nr, nl, cl, oc, ec, stop, stopret, grace, viol>>
+                          /\ UNCHANGED <<wr, rc, seen, gap, nr, nl, cl, added, oc, ec, stop, stopret, grace, viol>>
        [] e.e = "Taken" -> viol' = viol \cup (IF e.c \in dead THEN {"C17"} ELSE {}) /\ Keep
-       [] OTHER -> UNCHANGED <<wr, rc, seen, gap, nr, nl, cl, dead, live, oc, ec, stop, stopret, grace, viol>>
+       [] OTHER -> UNCHANGED <<wr, rc, seen, gap, nr, nl, cl, dead, added, live, oc, ec, stop, stopret, grace, viol>>
 
 Next == Step
 Spec == Init /\ [][Next]_vars
